@@ -2,12 +2,25 @@
    "solving a period touches only that period; reads never wrap round the span; an infeasible period is rejected;
     a call rejected up front changes nothing".
    Statements only; every proof is `exact <lemma>`; Print Assumptions under each. *)
+(* WHAT IS COVERED BY WHAT (reviewer-C items 2, 5):
+   - reads / writes of the generated code: the access log of Eval.eval_pass (theorems C04_reads_*, C04_*_monitored_eq), tied to
+     the code by K (access sequence of every recorded pass) and judged by the oracle on the recorded ndarray accesses;
+   - the solver's OWN accesses (get_check_values, offset copy, status / iterations) use the raw t: the model works on normalised
+     positions; C04_solver_own_accesses_no_wrap states that the raw indexes the code hands to NumPy land where the model puts
+     them once the guards have passed; the tie to the code for these accesses is the ORACLE only (every recorded access of the
+     whole call is judged: obs['log']), not K;
+   - Fortran engine: the compiled code's reads cannot be observed (they happen inside gfortran's object code) and FSem.fread is
+     totalised, so for this engine "reads never wrap" is covered by the rejection theorems (C04_fortran_infeasible_rejected,
+     C04_fortran_evaluate_infeasible_rejected: an infeasible period is never evaluated) and the write frames only;
+   - C04_out_of_span_no_change is about a t outside the span altogether, where the model answers IndexError unconditionally while
+     the code does so through NumPy in get_check_values (with an empty `check` it would go on): out of the property's scope
+     (ASSUMPTIONS: -n <= t < n), kept only so that the frame theorems need no side condition. *)
 From Coq Require Import ZArith List Bool PrimFloat.
 Import ListNotations.
 Require Import PyBase Solver SolverFacts SolverF SolveAll Eval EvalFacts EvalFacts2 EvalFacts3 EvalF EvalExamples.
 Require Import EvalSolveAll EvalSolveSpan EvalFortran EvalFortranFrame EvalExamples2 EvalDeps.
 Require Import SolveAllSpan.
-Require Import EvalHistory EvalExamples3.
+Require Import EvalHistory EvalSolveReject EvalExamples3.
 Require Fsic.Linker.Linker Fsic.Eval.EvalLinker.
 Require Fsic.Fortran.FSem Fsic.Fortran.FSolve.
 Require Fsic.Solver.SolveAllFacts.
@@ -110,6 +123,36 @@ Section C04_solver.
     feasible d (length span) a = false ->
     solve_M num sub absf ltb isfin zero ev before after L locate d o span (Some x) end_ s = (s, Raise IndexError).
   Proof. exact (solve_infeasible_start_rejected num sub absf ltb isfin zero ev before after L locate d o span x end_ s a b). Qed.
+
+  (* A REQUESTED RANGE THAT CONTAINS AN INFEASIBLE PERIOD IS NOT CLIPPED: solve(start=, end=) — given labels or defaults — whose
+     positions a..b contain a period without room for the lags / leads (e.g. a feasible start with end = the last period of a
+     model with a lead) never returns: some exception ends the call ... *)
+  Theorem C04_solve_entry_over_infeasible_raises (L : Type) (locate : L -> locres) d o (span : list L) start end_ s a b q :
+    min_iter o <= max_iter o ->
+    SolveAllFacts.given_ok L locate start a -> SolveAllFacts.given_ok L locate end_ b ->
+    SolveAllFacts.resolves_start L d span start a -> SolveAllFacts.resolves_end L d span end_ b ->
+    length (status s) = length span ->
+    (a <= q <= b)%nat -> feasible d (length span) q = false ->
+    exists s' e, solve_M num sub absf ltb isfin zero ev before after L locate d o span start end_ s = (s', Raise e).
+  Proof. exact (solve_over_infeasible_raises num sub absf ltb isfin zero ev before after L locate d o span start end_ s a b q). Qed.
+
+  (* ... and in the loop of solve(): once the earlier periods have gone through, the FIRST infeasible period raises IndexError,
+     the state left is exactly the one the earlier periods produced, nothing from that period on is touched *)
+  Theorem C04_solve_loop_first_infeasible_raises_IndexError (L : Type) d o (ps1 : list (Z * L)) t lab ps2 s acc s1 vs :
+    min_iter o <= max_iter o ->
+    run_periods num sub absf ltb isfin zero ev before after L d o ps1 s acc = (s1, Ret vs) ->
+    (exists p, py_pos (length (status s)) t = Some p /\ feasible d (length (status s)) p = false) ->
+    run_periods num sub absf ltb isfin zero ev before after L d o (ps1 ++ (t, lab) :: ps2) s acc = (s1, Raise IndexError).
+  Proof. exact (run_periods_first_infeasible num sub absf ltb isfin zero ev before after L d o ps1 t lab ps2 s acc s1 vs). Qed.
+
+  (* the solver's OWN accesses use the raw t (get_check_values, status, iterations: t; offset copy: reads t + offset, writes t):
+     once the offset guards have passed none of them wraps — each is served at the same distance from p inside the span *)
+  Theorem C04_solver_own_accesses_no_wrap (o : opts num) n t p :
+    py_pos n t = Some p ->
+    (offset o = 0 \/ 0 <= Z.of_nat p + offset o < Z.of_nat n) ->
+    Forall (fun i => py_pos n i = Some (Z.to_nat (Z.of_nat p + (i - t))) /\ 0 <= Z.of_nat p + (i - t) < Z.of_nat n)
+           ((if offset o =? 0 then [] else [t + offset o; t]) ++ [t]).
+  Proof. exact (solver_requests_no_wrap num o n t p). Qed.
 End C04_solver.
 
 (* ============ Part B: the generated code — every program, every arithmetic, every function oracle ============ *)
@@ -476,44 +519,28 @@ Section C04_fortran.
   Variable evf : Z -> vals num -> vals num.          (* the {equations} block: arbitrary *)
   Notation w_solve_t := (FSolve.w_solve_t num sub absf ltb isfin zero evf).
 
-  (* an explicit request for an infeasible period: THE WHOLE ANSWER of the Fortran engine, for every option set with a
-     valid `errors`, both spellings of t.  Always an exception (codes 13 / 14 -> FortranEngineError; SolutionError if
-     the wrapper's pre-existing-non-finite test fires first; IndexError for an out-of-span offset); status, iterations,
-     events untouched; values untouched unless a non-zero in-span offset was given (then the wrapper's copy remains) *)
+  (* an explicit request for an infeasible period on the Fortran engine (fix 1354783), at full strength: every equations
+     block, every compiled module, every option set with a valid `errors`, both spellings of t, with or without an offset:
+     IndexError, and values, status, iterations and events are exactly what they were (the guard precedes the offset copy;
+     the former finding C04|fortran|infeasible-after-offset|changed is fixed) *)
   Theorem C04_fortran_infeasible_rejected (fm : FSolve.fmod) d o t s p ec :
     min_iter o <= max_iter o -> FSolve.w_ec (errors o) = Some ec ->
-    FSolve.fm_lags fm = Z.of_nat (lags d) -> FSolve.fm_leads fm = Z.of_nat (leads d) ->
     py_pos (length (status s)) t = Some p -> feasible d (length (status s)) p = false ->
-    FSem.ncols_of num (vals_of s) = Z.of_nat (length (status s)) ->
-    let n := Z.of_nat (length (status s)) in
-    let q := Z.of_nat p + offset o in
-    let verdict (v : vals num) : exn :=
-      if is_raise (errors o) && negb (all_finite num isfin (get_check num zero d v p)) then SolutionError None else FortranEngineError in
-    w_solve_t fm d o t s =
-      if offset o =? 0 then (s, Raise (verdict (vals_of s)))
-      else if (q <? 0) || (n <=? q) then (s, Raise IndexError)
-      else let v0 := copy_endo num zero d (vals_of s) p (Z.to_nat q) in (FSolve.setvals num s v0, Raise (verdict v0)).
+    w_solve_t fm d o t s = (s, Raise IndexError).
   Proof. exact (fortran_infeasible_rejected num sub absf ltb isfin zero evf fm d o t s p ec). Qed.
 
-  Theorem C04_fortran_infeasible_no_offset_no_change (fm : FSolve.fmod) d o t s p ec :
-    min_iter o <= max_iter o -> FSolve.w_ec (errors o) = Some ec ->
-    FSolve.fm_lags fm = Z.of_nat (lags d) -> FSolve.fm_leads fm = Z.of_nat (leads d) ->
-    py_pos (length (status s)) t = Some p -> feasible d (length (status s)) p = false ->
-    FSem.ncols_of num (vals_of s) = Z.of_nat (length (status s)) -> offset o = 0 ->
-    fst (w_solve_t fm d o t s) = s /\
-    (snd (w_solve_t fm d o t s) = Raise FortranEngineError \/ snd (w_solve_t fm d o t s) = Raise (SolutionError None)).
-  Proof. exact (fortran_infeasible_no_offset_no_change num sub absf ltb isfin zero evf fm d o t s p ec). Qed.
+  (* the other up-front rejections of the Fortran wrapper: nothing changes *)
+  Theorem C04_fortran_rejected_min_gt_max_no_change (fm : FSolve.fmod) d o t s :
+    max_iter o < min_iter o -> w_solve_t fm d o t s = (s, Raise ValueError).
+  Proof. exact (fortran_rejected_min_gt_max num sub absf ltb isfin zero evf fm d o t s). Qed.
 
-  Theorem C04_fortran_infeasible_never_served (fm : FSolve.fmod) d o t s p ec :
+  Theorem C04_fortran_rejected_offset_out_of_span_no_change (fm : FSolve.fmod) d o t s p ec :
     min_iter o <= max_iter o -> FSolve.w_ec (errors o) = Some ec ->
-    FSolve.fm_lags fm = Z.of_nat (lags d) -> FSolve.fm_leads fm = Z.of_nat (leads d) ->
-    py_pos (length (status s)) t = Some p -> feasible d (length (status s)) p = false ->
-    FSem.ncols_of num (vals_of s) = Z.of_nat (length (status s)) ->
-    (exists e, snd (w_solve_t fm d o t s) = Raise e) /\
-    status (fst (w_solve_t fm d o t s)) = status s /\ iters (fst (w_solve_t fm d o t s)) = iters s /\
-    log (fst (w_solve_t fm d o t s)) = log s /\
-    agree_outside (fun i j => offset o <> 0 /\ In i (endo d) /\ j = p) (vals_of s) (vals_of (fst (w_solve_t fm d o t s))).
-  Proof. exact (fortran_infeasible_never_served num sub absf ltb isfin zero evf fm d o t s p ec). Qed.
+    py_pos (length (status s)) t = Some p -> feasible d (length (status s)) p = true ->
+    offset o <> 0 ->
+    (Z.of_nat p + offset o < 0 \/ Z.of_nat (length (status s)) <= Z.of_nat p + offset o) ->
+    w_solve_t fm d o t s = (s, Raise IndexError).
+  Proof. exact (fortran_rejected_offset_out_of_span num sub absf ltb isfin zero evf fm d o t s p ec). Qed.
 
   (* FortranEngine._evaluate(t): every t that is outside the span or leaves no room for the lags / leads is answered
      with IndexError by the explicit index tests (codes 11 - 14) and the instance is left exactly as it was *)
@@ -635,15 +662,6 @@ Theorem C04_lowered_instance_lags_refuted :
     nth_error (nth 0 (vals_of (fst (f_solve_t_P [] prog d o t s))) []) 0 = Some 3%float.
 Proof. exact lowered_instance_lags_refuted. Qed.
 
-(* finding (Fortran engine, still present): infeasible period rejected, yet the wrapper's offset copy was left behind *)
-Theorem C04_fortran_infeasible_after_offset_refuted :
-  exists (fm : FSolve.fmod) d o t s p,
-    py_pos (length (status s)) t = Some p /\ feasible d (length (status s)) p = false /\
-    FSolve.fm_lags fm = Z.of_nat (lags d) /\ FSolve.fm_leads fm = Z.of_nat (leads d) /\ offset o <> 0 /\
-    snd (exF_solve_t fm d o t s) = Raise FortranEngineError /\
-    nth_error (nth 0 (vals_of s) []) 0 = Some 1%float /\
-    nth_error (nth 0 (vals_of (fst (exF_solve_t fm d o t s))) []) 0 = Some 2%float.
-Proof. exact fortran_infeasible_after_offset_refuted. Qed.
 
 Print Assumptions C04_rejected_min_gt_max_no_change.
 Print Assumptions C04_rejected_offset_out_of_span_no_change.
@@ -668,6 +686,10 @@ Print Assumptions C04_eval_pass_gauss_seidel.
 Print Assumptions C04_rejected_preexisting_after_offset_refuted.
 Print Assumptions C04_infeasible_eval_pass_wraps.
 Print Assumptions C04_solve_entry_infeasible_start_rejected.
+Print Assumptions C04_solve_entry_over_infeasible_raises.
+Print Assumptions C04_solve_loop_first_infeasible_raises_IndexError.
+Print Assumptions C04_solver_own_accesses_no_wrap.
+Print Assumptions ex_end_infeasible_hyps.
 Print Assumptions C04_no_event_no_change_or_finding3.
 Print Assumptions C04_no_event_no_change.
 Print Assumptions C04_solve_seq_frame_feasible.
@@ -692,15 +714,15 @@ Print Assumptions ex_span_nodup.
 Print Assumptions C04_solve_entry_default_range_frame.
 Print Assumptions C04_solve_entry_monitored_eq.
 Print Assumptions C04_fortran_infeasible_rejected.
-Print Assumptions C04_fortran_infeasible_no_offset_no_change.
-Print Assumptions C04_fortran_infeasible_never_served.
+Print Assumptions C04_fortran_rejected_min_gt_max_no_change.
+Print Assumptions C04_fortran_rejected_offset_out_of_span_no_change.
+Print Assumptions exF_infeasible_rejected.
 Print Assumptions C04_fortran_evaluate_infeasible_rejected.
 Print Assumptions C04_fortran_solve_t_frame.
 Print Assumptions C04_fortran_solve_frame.
 Print Assumptions C04_fortran_parsed_solve_touches_only_visited.
 Print Assumptions C04_fortran_equations_block_writes_only_lhs.
 Print Assumptions C04_fortran_parsed_solve_t_touches_only_t.
-Print Assumptions C04_fortran_infeasible_after_offset_refuted.
 Print Assumptions ex_hyps_satisfiable.
 Print Assumptions exF_hyps.
 Print Assumptions ex_entry_hyps.
